@@ -393,10 +393,7 @@ def evalS (c : Ctx) : Stmt → Sem Unit
   | .forC init cond post body => inFrame [] fun env tr =>
     (evalSs c init env tr).bind fun _ =>
       condLoop (evalE c cond) (evalSs c post) (evalSs c body) c.loopFuel
-  | .ret es => fun env tr => (evalEs c es env tr).bind fun vs env1 tr1 =>
-    match vs with
-    | [.tuple ws] => .ret ws env1 tr1
-    | _ => .ret vs env1 tr1
+  | .ret es => fun env tr => (evalEs c es env tr).bind fun vs env1 tr1 => .ret vs env1 tr1
   | .panic e => fun env tr => (evalE c e env tr).bind fun v _ tr1 => .panic v tr1
   | .block ss => inFrame [] (evalSs c ss)
   -- XGo sugar: documented meaning
